@@ -285,11 +285,13 @@ def _astype(self, dt, copy=True):
 ND.astype = _astype
 
 
-def _reshape_general(self, shape, order='C'):
+def _reshape_general(self, *shape, order='C'):
     """1-D -> 2-D reshape; one extent may be -1 (inferred); ValueError when the size does not divide"""
-    if isinstance(shape, int):
-        shape = (shape,)
-    assert self.ndim == 1 and len(shape) == 2 and order == 'C'
+    if len(shape) == 1 and isinstance(shape[0], (tuple, list)):
+        shape = tuple(shape[0])
+    if not (self.ndim == 1 and len(shape) == 2 and order == 'C'):
+        from .symex import Unsupported
+        raise Unsupported('reshape %r of a %d-d array' % (shape, self.ndim))
     n = zi(self.shape[0])
     r, c = shape
     if isinstance(r, int) and r == -1:
